@@ -558,3 +558,27 @@ package fontscan
 //@   assert_at call Errorf#5 : [only-on-read-error] err != nil
 //@   assert_at call Errorf#6 : [only-on-gzip-error] err != nil
 //@   modifies unspecified
+//
+// newCoveragesFromCmap, rune-by-rune path ("the recorded script set is exactly the scripts of the covered runes",
+// here: no script of a covered rune is missed): every rune recorded in the rune set has its script in the script set.
+// The rune set is abstract here (runeIn uninterpreted); RuneSet.Add is TRUSTED to add exactly its argument (its own
+// membership contract is proved under the page view, see RuneSet.Contains/Delete); the cmap iterator methods are
+// trusted not to write the caller's data.
+//@ opaque runeIn(rs RuneSet, r rune) bool
+//@ trusted RuneSet.Add
+//@   ensures [added] runeIn(*rs, r) && len(*rs) > 0
+//@   ensures [only-this-rune-added] forallV(q, r, runeIn(*rs, q), implies(runeIn(*rs, q), q == r || (old(len(*rs)) > 0 && old(runeIn(*rs, q)))))
+//@   modifies *rs; all(runePage)
+//@ trusted std:font.CmapIter.Next
+//@   params it
+//@   modifies nothing
+//@ trusted std:font.CmapIter.Char
+//@   params it
+//@   modifies nothing
+//@ trusted std:font.Cmap.Iter
+//@   params c
+//@   modifies nothing
+//@ func newCoveragesFromCmap C11
+//@   mode int
+//@   loop 1 invariant [scripts-of-recorded-runes] len(rs) == 0 || forallV(q, rune(0), runeIn(rs, q), implies(runeIn(rs, q), inSet(ss, language.LookupScript(q))))
+//@   modifies unspecified
